@@ -648,7 +648,7 @@ func init() {
 	Systems["c16.register.special2"] = c16System(0, 2)
 	Systems["c16.register.k2+special2"] = c16System(2, 2)
 	Checks["C16"] = func(r *evid.Run) {
-		dl := deadline(r, 55*time.Second, 20*time.Minute)
+		dl := deadline(r, 120*time.Second, 20*time.Minute)
 		name := "c16.register.k3"
 		if thorough(r) {
 			name = "c16.register.k8"
